@@ -51,6 +51,10 @@ def screen(ctx, fams, sizes, limit):
     tasks, meta = [], []
     for fi, f in enumerate(fams):
         c = CFGS[fi % len(CFGS)] if fi >= len(UNIT_TOKENS) else CFGS[1]
+        if "```{" in f[0] or ":::{" in f[0]:
+            c = CFGS[2]
+        elif f[0].startswith(".. "):
+            c = CFGS[3]
         for n in sizes:
             doc = build(f, n)
             tasks.append((c, doc, limit)); meta.append((fi, n, c))
